@@ -138,6 +138,31 @@ theorem C05_define_below_frozen_defines (s : ClassSpec) (mroN basesN : List Node
   obtain ⟨_, _, h3, h4, _⟩ := decorate_frozen s mroN basesN n hf hn
   exact ⟨n, hn, h3, h4⟩
 
+/-- **C05_body_setattr_never_reset**: a `__setattr__` written in the class body is never replaced by
+    `object.__setattr__` when attrs resets an inherited attrs-made one — with or without auto_detect, slotted or
+    not, whatever the bases carry (it can only be overridden by the frozen pair or joined by a rejection). -/
+theorem C05_body_setattr_never_reset (s : ClassSpec) (mroN basesN : List Node) (n : Node)
+    (hu : s.userSet = true) (h : decorate s mroN basesN = .ok n) : n.set ≠ some .obj := by
+  obtain ⟨k, _, _, rfl⟩ := decorate_ok s mroN basesN n h
+  have hb : bodySet s = some .user := by simp [bodySet, hu]
+  simp only [nodeOf, ownSetOf, hu, hb]
+  split
+  · split <;> simp
+  · split
+    · simp
+    · split
+      · simp
+      · split <;> simp
+
+/-- **C05_own_state_pair**: a class left at `getstate_setstate=None` gets its own generated
+    `__getstate__/__setstate__` exactly when it is slotted or would otherwise inherit a pair generated for a
+    base — so a dict class below a slotted class never copies/unpickles through its base's pair. -/
+theorem C05_own_state_pair (s : ClassSpec) (mroN basesN : List Node) (n : Node)
+    (harg : s.stateArg = none) (h : decorate s mroN basesN = .ok n) :
+    n.ownState = (s.slots || mroN.any (·.ownState)) := by
+  obtain ⟨k, _, _, rfl⟩ := decorate_ok s mroN basesN n h
+  simp [nodeOf, ownStateOf, harg]
+
 /-- **C05_chain_inherited**: hierarchies of arbitrary depth. On top of a frozen class, any chain of further
     classes — plain or decorated through any api with any options — none of which writes `__setattr__` /
     `__delattr__` in its body: if all definitions are accepted, the last class is frozen again. -/
@@ -270,7 +295,7 @@ def wInit : Init.Case :=
     call := { pos := [], kw := [] }, isDefine := false, clsOnSet := .unset }
 def wCls : ClassSpec :=
   { attrs := true, api := .attrS, frozenArg := true, slots := false, clsOnSet := .unset, autoDetect := false,
-    userSet := false, userDel := false, builtin := false, fields := [], bases := [], mro := [] }
+    userSet := false, userDel := false, builtin := false, stateArg := none, fields := [], bases := [], mro := [] }
 def wX : Attr := { name := "x", alias := "x", dflt := .none, init := true, kwOnly := false, conv := none,
                    validators := 0, onSet := .unset, isSlot := true, type := none, convType := none }
 def wXf : FieldFacts := { name := "x", onSet := .unset, hasValidator := false, hasConverter := false }
@@ -279,7 +304,7 @@ def wXf : FieldFacts := { name := "x", onSet := .unset, hasValidator := false, h
 def k05aWitness : Case :=
   { classes := [wCls, { wCls with attrs := false, frozenArg := false, userSet := true, bases := [0], mro := [0] }],
     excRoot := false, init := wInit, owner := 1, hasDict := true, slotNames := [],
-    names := ["_attrs_cached_hash", "zz_new"], gs := .dflt, hashNames := none, ops := [.set "zz_new" "s1"] }
+    names := ["_attrs_cached_hash", "zz_new"], anySlots := false, gs := .dflt, hashNames := none, ops := [.set "zz_new" "s1"] }
 
 theorem C05_known_K05a_witness :
     wf k05aWitness = true ∧ "K05a" ∈ known k05aWitness ∧ spec k05aWitness (model k05aWitness) = false := by
@@ -298,7 +323,7 @@ def k3Witness : Case :=
                 { wCls with fields := [wXf], bases := [0], mro := [0, 1] }],
     excRoot := false,
     init := k3Init, owner := 0, hasDict := true, slotNames := ["x"],
-    names := ["_attrs_cached_hash", "x"], gs := .other, hashNames := none, ops := [] }
+    names := ["_attrs_cached_hash", "x"], anySlots := true, gs := .attrs, hashNames := none, ops := [] }
 
 theorem C05_known_K3_witness :
     wf k3Witness = true ∧ "K3" ∈ known k3Witness ∧ spec k3Witness (model k3Witness) = false := by
@@ -311,7 +336,7 @@ def k2Witness : Case :=
     excRoot := false,
     init := { wInit with run := { wInit.run with cfg := { wCfg with cacheHash := true }, cacheIsSlot := true } },
     owner := 0, hasDict := true, slotNames := ["_attrs_cached_hash"],
-    names := ["_attrs_cached_hash"], gs := .other, hashNames := some [], ops := [.hash] }
+    names := ["_attrs_cached_hash"], anySlots := true, gs := .attrs, hashNames := some [], ops := [.hash] }
 
 theorem C05_known_K2_witness :
     wf k2Witness = true ∧ "K2" ∈ known k2Witness ∧ spec k2Witness (model k2Witness) = false := by
@@ -319,12 +344,12 @@ theorem C05_known_K2_witness :
 
 /-- K11: `@attr.s(frozen=True, slots=True, getstate_setstate=False) class A: x = attr.ib()`; `copy.copy(A(1))` -/
 def k11Witness : Case :=
-  { classes := [{ wCls with slots := true, fields := [wXf] }],
+  { classes := [{ wCls with slots := true, stateArg := some false, fields := [wXf] }],
     excRoot := false,
     init := { wInit with run := { wInit.run with cfg := { wCfg with slots := true }, attrs := [wX], own := ["x"] },
                          call := { pos := ["t1"], kw := [] } },
     owner := 0, hasDict := false, slotNames := ["x"],
-    names := ["_attrs_cached_hash", "x"], gs := .optOut, hashNames := none, ops := [.copy] }
+    names := ["_attrs_cached_hash", "x"], anySlots := true, gs := .optOut, hashNames := none, ops := [.copy] }
 
 theorem C05_known_K11_witness :
     wf k11Witness = true ∧ "K11" ∈ known k11Witness ∧ spec k11Witness (model k11Witness) = false := by
@@ -332,8 +357,11 @@ theorem C05_known_K11_witness :
 
 /-- non-vacuity of `C05_model_meets_spec`: the same class with the generated state methods is well-formed,
     falls under no known finding, and its history contains a mutation attempt and a copy -/
-example : wf { k11Witness with gs := .attrs, ops := [.set "x" "s1", .copy, .del "zz_new", .aug "x" "+a"] } = true ∧
-    known { k11Witness with gs := .attrs, ops := [.set "x" "s1", .copy, .del "zz_new", .aug "x" "+a"] } = [] := by
+def okCase : Case :=
+  { k11Witness with classes := [{ wCls with slots := true, fields := [wXf] }], gs := .attrs,
+                    ops := [.set "x" "s1", .copy, .del "zz_new", .aug "x" "+a"] }
+
+example : wf okCase = true ∧ known okCase = [] := by
   refine ⟨by decide, by decide⟩
 
 /-- a frozen class, a plain subclass, a `define`d subclass with a validator -/
